@@ -438,7 +438,8 @@ def run_family(item, A, vs, kdims, Ks, wants, etol_rel, detect_ok, ms, hss=None,
     def refv(x):        # a dtype variant keeps the values (rounded to a narrower float): the reference takes them
         if not sdt:
             return x.astype(npd)
-        return mkv(x).astype(npd) if ssc is None else (mkv(x).astype(np.complex128) / ssc).astype(npd)
+        y = mkv(x) if ssc is None else mkv(x).astype(np.complex128) / ssc
+        return (y if np.issubdtype(npd, np.complexfloating) else np.real(y)).astype(npd)
     dyadic = (sc is None or kf.is_pow2(sc)) and (ssc is None or kf.is_pow2(ssc))
     # tolerance of the comparison with the reference run: exact variants (powers of two) agree on everything to a few
     # ulps; a start vector with the same values in another dtype is normalised in ITS dtype before it is promoted, so
